@@ -1,0 +1,321 @@
+//! Unstable, unofficial instrumentation hooks meant for external runtime
+//! verification (feature `verif-hooks`).
+//!
+//! Not for production use! With the feature disabled, none of this is compiled.
+//!
+//! The hooks are of three kinds:
+//!
+//! * `probe(site, arg)`: a call placed between two consecutive steps of an
+//!   inter-thread protocol; it forwards to a handler installed by the
+//!   verification harness (no-op otherwise) which may record the event and/or
+//!   inject a delay,
+//! * scheduling hooks for the single-threaded executor (`st_before_pop`,
+//!   `maybe_yield`), which let the harness choose which runnable task is polled
+//!   next and make a sender yield cooperatively before pushing a message,
+//! * thin public wrappers over crate-private building blocks (bounded MPSC
+//!   queue, task primitives, seqlock time cell, priority queues).
+#![allow(missing_docs, missing_debug_implementations, unreachable_pub)]
+
+use std::cell::RefCell;
+use std::future::Future;
+use std::pin::Pin;
+use std::ptr;
+use std::sync::atomic::{AtomicPtr, Ordering};
+use std::task::{Context, Poll, Waker};
+
+use crate::model::Model;
+use crate::simulation::{Address, Mailbox};
+use crate::time::{MonotonicTime, TearableAtomicTime};
+use crate::util::indexed_priority_queue::{IndexedPriorityQueue, InsertKey};
+use crate::util::priority_queue::PriorityQueue;
+use crate::util::sync_cell::{SyncCell, SyncCellReader};
+
+pub use crate::channel::verif::{raw_queue, RawBorrow, RawConsumer, RawPopError, RawProducer, RawPushError};
+pub use crate::executor::task_verif as task;
+
+/// Probe site identifiers.
+pub mod site {
+    // Multi-threaded executor, worker loop.
+    pub const MT_WORKER_BEFORE_DEACTIVATE: u32 = 1;
+    pub const MT_WORKER_DEACTIVATED: u32 = 2;
+    pub const MT_WORKER_LAST_BEFORE_IDLE: u32 = 3;
+    pub const MT_WORKER_ALL_INACTIVE: u32 = 4;
+    pub const MT_WORKER_BEFORE_UNPARK_MAIN: u32 = 5;
+    pub const MT_WORKER_UNPARKED: u32 = 6;
+    pub const MT_WORKER_BUCKET_POPPED: u32 = 7;
+    pub const MT_WORKER_BEFORE_STEAL: u32 = 8;
+    pub const MT_WORKER_BEFORE_RUN: u32 = 9;
+    pub const MT_WORKER_AFTER_RUN: u32 = 10;
+    pub const MT_WORKER_END_SEARCH: u32 = 11;
+    // Multi-threaded executor, task scheduling.
+    pub const MT_SCHEDULE_FAST_SLOT: u32 = 12;
+    pub const MT_SCHEDULE_BEFORE_ACTIVATE: u32 = 13;
+    // Multi-threaded executor, main thread.
+    pub const MT_RUN_ACTIVATED: u32 = 14;
+    pub const MT_RUN_BEFORE_IDLE_CHECK: u32 = 15;
+    pub const MT_RUN_IDLE_SEEN: u32 = 16;
+    pub const MT_RUN_BEFORE_PARK: u32 = 17;
+    pub const MT_SPAWN_INJECTED: u32 = 18;
+    // Pool manager.
+    pub const POOL_ACTIVATE_FOUND_IDLE: u32 = 19;
+    pub const POOL_ACTIVATE_RELAXED_FOUND_IDLE: u32 = 20;
+    // Task.
+    pub const TASK_WAKE_BEFORE_SCHEDULE: u32 = 21;
+    pub const TASK_RUN_BEFORE_POLL: u32 = 22;
+    pub const TASK_RUN_AFTER_POLL: u32 = 23;
+    pub const TASK_RUN_COMPLETED: u32 = 24;
+    pub const TASK_CANCEL_TOKEN_AFTER_UPDATE: u32 = 25;
+    // Channel.
+    pub const CHAN_SEND_BEFORE_PUSH: u32 = 26;
+    pub const CHAN_SEND_PUSHED: u32 = 27;
+    pub const CHAN_SEND_NOTIFIED: u32 = 28;
+    pub const CHAN_RECV_POPPED: u32 = 29;
+    pub const CHAN_RECV_SLOT_RELEASED: u32 = 30;
+    pub const CHAN_RECV_SENDER_NOTIFIED: u32 = 31;
+    // Queue.
+    pub const QUEUE_PUSH_CLAIMED: u32 = 32;
+    pub const QUEUE_PUSH_WRITTEN: u32 = 33;
+    pub const QUEUE_POP_CLAIMED: u32 = 34;
+    pub const QUEUE_POP_TAKEN: u32 = 35;
+    pub const QUEUE_RELEASE_BEFORE_STAMP: u32 = 36;
+    // Scheduler queue and simulation time.
+    pub const SCHED_LOCKED_BEFORE_TIME_READ: u32 = 37;
+    pub const SCHED_BEFORE_INSERT: u32 = 38;
+    pub const STEP_TIME_WRITTEN: u32 = 39;
+    pub const STEP_ACTION_PULLED: u32 = 40;
+    pub const STEP_BEFORE_SYNC: u32 = 41;
+    pub const STEP_UNTIL_BEFORE_FINAL_WRITE: u32 = 42;
+    pub const STEP_LOCKED: u32 = 43;
+    // Seqlock.
+    pub const CELL_WRITE_ODD: u32 = 44;
+    pub const CELL_WRITE_STORED: u32 = 45;
+    pub const CELL_READ_SEQ_LOADED: u32 = 46;
+    pub const CELL_READ_VALUE_LOADED: u32 = 47;
+    pub const TIME_STORE_HALF: u32 = 48;
+    pub const TIME_LOAD_HALF: u32 = 49;
+    // Task set.
+    pub const TASKSET_WAKE_NEXT_SET: u32 = 50;
+    pub const TASKSET_TAKE_BEFORE_CAS: u32 = 51;
+    // Single-threaded executor.
+    pub const ST_BEFORE_RUN: u32 = 52;
+    /// Number of probe sites (one more than the largest identifier).
+    pub const COUNT: usize = 53;
+}
+
+static PROBE: AtomicPtr<()> = AtomicPtr::new(ptr::null_mut());
+static ST_PICKER: AtomicPtr<()> = AtomicPtr::new(ptr::null_mut());
+static YIELD_POLICY: AtomicPtr<()> = AtomicPtr::new(ptr::null_mut());
+
+/// Installs (or removes) the probe handler.
+///
+/// The handler must not panic and should only touch thread-local state so
+/// that it does not introduce synchronization between the instrumented
+/// threads.
+pub fn set_probe(handler: Option<fn(u32, usize)>) {
+    let p = handler.map_or(ptr::null_mut(), |f| f as *mut ());
+    PROBE.store(p, Ordering::Relaxed);
+}
+
+/// Reports that a probe site was reached.
+#[inline]
+pub(crate) fn probe(site: u32, arg: usize) {
+    let p = PROBE.load(Ordering::Relaxed);
+    if !p.is_null() {
+        // Safety: the pointer was obtained from a `fn(u32, usize)`.
+        let f: fn(u32, usize) = unsafe { std::mem::transmute::<*mut (), fn(u32, usize)>(p) };
+        f(site, arg);
+    }
+}
+
+/// Installs (or removes) the task picker of single-threaded executors.
+///
+/// The picker receives the number `n > 1` of runnable tasks and returns the
+/// index (`< n`) of the task to be polled next. Without a picker, the executor
+/// keeps its native LIFO order.
+pub fn set_st_picker(picker: Option<fn(usize) -> usize>) {
+    let p = picker.map_or(ptr::null_mut(), |f| f as *mut ());
+    ST_PICKER.store(p, Ordering::Relaxed);
+}
+
+/// Installs (or removes) the cooperative yield policy consulted by senders
+/// before they push a message.
+///
+/// The policy is only honored when a task picker is installed, since yielded
+/// tasks are resumed by the picker hook of the single-threaded executor.
+pub fn set_yield_policy(policy: Option<fn() -> bool>) {
+    let p = policy.map_or(ptr::null_mut(), |f| f as *mut ());
+    YIELD_POLICY.store(p, Ordering::Relaxed);
+}
+
+thread_local! { static DEFERRED_WAKERS: RefCell<Vec<Waker>> = const { RefCell::new(Vec::new()) }; }
+
+/// Drops all wakers of tasks that yielded and have not been resumed yet.
+pub fn clear_deferred() {
+    let deferred = DEFERRED_WAKERS.with(|d| std::mem::take(&mut *d.borrow_mut()));
+    drop(deferred);
+}
+
+/// Hook called by the single-threaded executor right before it pops the next
+/// runnable task.
+pub(crate) fn st_before_pop<T>(queue: &RefCell<Vec<T>>) {
+    let p = ST_PICKER.load(Ordering::Relaxed);
+    if p.is_null() {
+        return;
+    }
+    // Safety: the pointer was obtained from a `fn(usize) -> usize`.
+    let picker: fn(usize) -> usize =
+        unsafe { std::mem::transmute::<*mut (), fn(usize) -> usize>(p) };
+
+    // Resume the tasks that yielded since the last call.
+    let deferred = DEFERRED_WAKERS.with(|d| std::mem::take(&mut *d.borrow_mut()));
+    for waker in deferred {
+        waker.wake();
+    }
+
+    let mut queue = queue.borrow_mut();
+    let len = queue.len();
+    if len > 1 {
+        let idx = picker(len);
+        if idx < len {
+            queue.swap(idx, len - 1);
+        }
+    }
+}
+
+/// A future that completes immediately unless the yield policy requests a
+/// cooperative yield, in which case it returns `Pending` once.
+pub(crate) struct MaybeYield {
+    polled: bool,
+}
+
+pub(crate) fn maybe_yield() -> MaybeYield {
+    MaybeYield { polled: false }
+}
+
+impl Future for MaybeYield {
+    type Output = ();
+
+    fn poll(mut self: Pin<&mut Self>, cx: &mut Context<'_>) -> Poll<()> {
+        if self.polled {
+            return Poll::Ready(());
+        }
+        self.polled = true;
+
+        let policy = YIELD_POLICY.load(Ordering::Relaxed);
+        if policy.is_null() || ST_PICKER.load(Ordering::Relaxed).is_null() {
+            return Poll::Ready(());
+        }
+        // Safety: the pointer was obtained from a `fn() -> bool`.
+        let policy: fn() -> bool = unsafe { std::mem::transmute::<*mut (), fn() -> bool>(policy) };
+        if !policy() {
+            return Poll::Ready(());
+        }
+        DEFERRED_WAKERS.with(|d| d.borrow_mut().push(cx.waker().clone()));
+
+        Poll::Pending
+    }
+}
+
+/// Returns the identifier of the channel underlying a mailbox.
+pub fn mailbox_id<M: Model>(mailbox: &Mailbox<M>) -> usize {
+    mailbox.0.channel_id().to_string().parse().unwrap()
+}
+
+/// Returns the identifier of the channel underlying an address.
+pub fn address_id<M: Model>(address: &Address<M>) -> usize {
+    address.0.channel_id()
+}
+
+/// The seqlock-protected simulation time cell.
+pub struct TimeCell(SyncCell<TearableAtomicTime>);
+
+impl TimeCell {
+    pub fn new(time: MonotonicTime) -> Self {
+        Self(SyncCell::new(TearableAtomicTime::new(time)))
+    }
+    pub fn write(&self, time: MonotonicTime) {
+        self.0.write(time)
+    }
+    pub fn read(&self) -> MonotonicTime {
+        self.0.read()
+    }
+    pub fn reader(&self) -> TimeCellReader {
+        TimeCellReader(self.0.reader())
+    }
+}
+
+/// A reader handle to a [`TimeCell`].
+#[derive(Clone)]
+pub struct TimeCellReader(SyncCellReader<TearableAtomicTime>);
+
+impl TimeCellReader {
+    pub fn try_read(&self) -> Option<MonotonicTime> {
+        self.0.try_read().ok()
+    }
+    pub fn read(&self) -> MonotonicTime {
+        self.0.read()
+    }
+}
+
+/// The scheduler's priority queue.
+pub struct Pq<K: Copy + Ord, V>(PriorityQueue<K, V>);
+
+impl<K: Copy + Ord, V> Pq<K, V> {
+    #[allow(clippy::new_without_default)]
+    pub fn new() -> Self {
+        Self(PriorityQueue::new())
+    }
+    pub fn insert(&mut self, key: K, value: V) {
+        self.0.insert(key, value)
+    }
+    pub fn pull(&mut self) -> Option<(K, V)> {
+        self.0.pull()
+    }
+    pub fn peek(&self) -> Option<(&K, &V)> {
+        self.0.peek()
+    }
+}
+
+/// A key returned by [`IndexedPq::insert`].
+#[derive(Copy, Clone, Debug, PartialEq, Eq, Hash)]
+pub struct PqKey(InsertKey);
+
+impl PqKey {
+    pub fn into_raw_parts(self) -> (usize, u64) {
+        self.0.into_raw_parts()
+    }
+    pub fn from_raw_parts(slab_idx: usize, epoch: u64) -> Self {
+        Self(InsertKey::from_raw_parts(slab_idx, epoch))
+    }
+}
+
+/// The keyed priority queue.
+pub struct IndexedPq<K: Copy + Ord, V>(IndexedPriorityQueue<K, V>);
+
+impl<K: Copy + Ord, V> IndexedPq<K, V> {
+    #[allow(clippy::new_without_default)]
+    pub fn new() -> Self {
+        Self(IndexedPriorityQueue::new())
+    }
+    pub fn len(&self) -> usize {
+        self.0.len()
+    }
+    pub fn is_empty(&self) -> bool {
+        self.0.len() == 0
+    }
+    pub fn insert(&mut self, key: K, value: V) -> PqKey {
+        PqKey(self.0.insert(key, value))
+    }
+    pub fn pull(&mut self) -> Option<(K, V)> {
+        self.0.pull()
+    }
+    pub fn peek(&self) -> Option<(&K, &V)> {
+        self.0.peek()
+    }
+    pub fn peek_key(&self) -> Option<&K> {
+        self.0.peek_key()
+    }
+    pub fn extract(&mut self, key: PqKey) -> Option<(K, V)> {
+        self.0.extract(key.0)
+    }
+}
